@@ -345,7 +345,8 @@ def random_case(rng, maxk=9, arg_w=6):
         elif kind == "b":
             its.append(("b", {"id": fresh(), "iface": t, "conc": out}))
         else:
-            i = fresh(); its.append(("f", {"id": i, "parent": out, "name": "F%d" % i, "outs": [t]}))
+            # (a field selected from a pointer to the struct provides the field's type and a pointer to it)
+            i = fresh(); its.append(("f", {"id": i, "parent": out, "name": "F%d" % i, "outs": [t, t + 1] if out % 2 else [t]}))
     elif r < 0.41:
         defect = "out-is-arg-extra"
         given = [out] + [g for g in given if g != out][:2]
